@@ -13,7 +13,7 @@ YOUR TASK: produce TWO independent source changes (call them A and B) to the gen
   1. breaks the property above for SOME inputs,
   2. still "compiles" (the package imports, the CLI works) and the project's existing test suite still passes with it,
   3. is subtle: it must need something specific to manifest - an unusual but legitimate input, a particular combination of features or options, a multi-step sequence of commands, a particular ordering / hash seed, or two cooperating sites that each look fine alone. A change that ordinary use (e.g. generating the project's own sample documents) would expose at once is NOT wanted. It should look like a plausible refactoring slip or "optimisation", not like vandalism.
-  A and B should exercise different mechanisms / code sites. For diversity: make at least one of them a change in a Jinja template (openapi_python_client/templates/**) or a change whose effect depends on a configuration option (see README.md, section Configuration) or on the interplay of two document features (e.g. a feature used inside another feature, or the same component used in two roles); avoid the most obvious single-line site for this property.
+  A and B should exercise different mechanisms / code sites. {diversity}
 
 HOW TO RUN THINGS: the interpreter is /venv/bin/python (the project's dependencies are installed there, but its editable install points at another checkout, so ALWAYS set PYTHONPATH={wt} when running anything, e.g.
     cd {wt} && PYTHONPATH={wt} /venv/bin/python -m pytest -q -p no:cacheprovider tests end_to_end_tests/functional_tests
@@ -34,6 +34,12 @@ Leave the worktree itself CLEAN of the changes at the end (git checkout -- opena
 Verify everything yourself before finishing: (i) demo passes on the clean tree, (ii) with patch A applied the existing tests still pass and demo A fails, (iii) same for B. Report in your final message, for A and B: the one-line description, the file(s) touched, and the verification results. Keep the final message short.'''
 
 
+DIVERSITY = {
+    "default": "For diversity: make at least one of them a change in a Jinja template (openapi_python_client/templates/**) or a change whose effect depends on a configuration option (see README.md, section Configuration) or on the interplay of two document features (e.g. a feature used inside another feature, or the same component used in two roles); avoid the most obvious single-line site for this property.",
+    "5": "For diversity: change A must live in one of the less obvious areas - openapi_python_client/schema/** (the pydantic models that parse the document), openapi_python_client/utils.py, config.py, cli.py or the project-assembly code in openapi_python_client/__init__.py - or in a shared helper template (templates/property_templates/helpers.jinja, property_macros.py.jinja, endpoint_macros.py.jinja, types.py.jinja, client.py.jinja). Change B must be one whose effect needs at least THREE conditions to hold at once (for example: a particular option AND a particular schema feature AND a particular position or order in the document), or that only shows on the second use of something (state carried over from an earlier schema, operation or command). Avoid the most obvious site for this property.",
+}
+
+
 def main():
     wave = sys.argv[1]
     props = {}
@@ -41,7 +47,7 @@ def main():
         p = json.loads(line)
         props[p["id"]] = f"{p['id']} — {p['title']}\n\nStatement: {p['statement']}\n\nQuantified over: {p['quantifier']['text']}\n"
     for pid in sys.argv[2:]:
-        open(f"/tmp/prompt{wave}-{pid}.txt", "w").write(TMPL.format(wt=f"/tmp/wt{wave}-{pid}", prop=props[pid]))
+        open(f"/tmp/prompt{wave}-{pid}.txt", "w").write(TMPL.format(wt=f"/tmp/wt{wave}-{pid}", prop=props[pid], diversity=DIVERSITY.get(wave, DIVERSITY["default"])))
         print(f"/tmp/prompt{wave}-{pid}.txt")
 
 
